@@ -2203,7 +2203,7 @@ chld_cb(EV_P_ ev_child *c, int UNUSED(revents))
 	c->rpid = c->pid = 0;
 	t->nsim--;
 
-	if (UNLIKELY(t->w.reschedule_cb == NULL)) {
+	if (UNLIKELY(t->w.reschedule_cb == NULL && !t->nsim)) {
 		/* we promised taskB_cb to kill this guy */
 		unsched(EV_A_ &t->w, 0);
 	}
